@@ -1,0 +1,56 @@
+//go:build verif
+// +build verif
+
+// Contracts for the deductive verifier in /verif (govc): segmented log (C13, C14).
+// Comment-only file.
+
+package log
+
+// ---------------------------------------------------------------------------
+// trusted: encoding/binary (T-std). word(b, p) is the 64-bit little-endian word in b[p:p+8].
+
+//@ func (encoding/binary.littleEndian).Uint64 params(le, b)
+//@   trusted
+//@   requires [C15.word-bounds] len(b) >= 8
+//@   ensures result0 == word(b, 0)
+
+//@ func (encoding/binary.littleEndian).PutUint64 params(le, b, v)
+//@   trusted
+//@   requires [C15.word-bounds] len(b) >= 8
+//@   modifies contents(b)
+//@   ensures word(b, 0) == v
+//@   ensures forall(j, j < 0 || j >= 8 ==> b[j] == old(b[j]))
+
+// ---------------------------------------------------------------------------
+// segment: mmap-backed file  [ data ............ | off(n+1) ... off(2) off(1) off(0)=n ]
+
+//@ pure DataLen(s *segment) int = len(s.file.Data)
+//@ pure soff(s *segment, k int) uint64 = word(s.file.Data, len(s.file.Data) - 8*k - 8)
+//@ pure SegBase(s *segment) bool = s.file != nil && len(s.file.Data) >= 24 && len(s.file.Data) <= 1099511627776
+//@ pure SegInv(s *segment) bool = SegBase(s) && 0 <= s.n && 8*(s.n+2) <= len(s.file.Data) && soff(s, 1) == 0 && s.size == soff(s, s.n+1) && s.size <= len(s.file.Data) - 8*(s.n+2) && forallr(k, 1, s.n+1, soff(s, k) <= soff(s, k+1))
+
+//@ func (*segment).at
+//@   requires SegBase(s) && 0 <= i && i <= 137438953472
+//@   ensures [C13.at] result0 == len(s.file.Data) - i*8 - 8
+
+//@ func (*segment).offset
+//@   requires SegBase(s) && 0 <= i && 8*i + 8 <= len(s.file.Data)
+//@   requires [C13.offset-fits-int] soff(s, i) < 9223372036854775808
+//@   ensures [C13.offset] result0 == soff(s, i)
+
+//@ func (*segment).setOffset
+//@   requires SegBase(s) && 0 <= i && 8*i + 8 <= len(s.file.Data) && off >= 0
+//@   modifies contents(s.file.Data)
+//@   ensures [C13.set-offset] soff(s, i) == off
+//@   ensures [C13.set-offset-frame] forall(j, j < len(s.file.Data) - 8*i - 8 || j >= len(s.file.Data) - 8*i ==> s.file.Data[j] == old(s.file.Data[j]))
+
+//@ func (*segment).lastIndex
+//@   requires s.n >= 0
+//@   ensures [C13.last-index] s.prevIndex + s.n < 18446744073709551616 ==> result0 == s.prevIndex + s.n
+
+//@ func (*segment).available
+//@   requires SegInv(s)
+//@   ensures [C13.available] result0 == len(s.file.Data) - 8*(s.n+2) - 8 - s.size
+
+//@ func (*segment).dirty
+//@   ensures [C14.dirty] result0 == (s.synced < s.n)
